@@ -117,7 +117,21 @@ let dinput = function
 (* values for the behavioural cross-check:  (D None|(Some "V") ((key z) ...))  with z a decimal integer *)
 let value_of = function
   | L [A "D"; vn; L fs] ->
-    VData (opt str vn, List.map (function L [k; z] -> (str k, VAtom (z_of_string (str z))) | _ -> failwith "field") fs)
+    VData (opt str vn, List.map (function L [k; (A _ | S _) as z] -> (str k, VAtom (z_of_string (str z))) | _ -> failwith "field") fs)
+  | _ -> failwith "value"
+(* values whose fields may be references (deref suite):  (key (R z))  is a reference to the root "*key" of the
+   heap, which holds the atom z; returns the value and that heap *)
+let value_heap_of = function
+  | L [A "D"; vn; L fs] ->
+    let heap = ref [] in
+    let v = VData (opt str vn, List.map (function
+      | L [k; L [A "R"; z]] ->
+        let root = "*" ^ str k in
+        heap := (root, VAtom (z_of_string (str z))) :: !heap;
+        (str k, VRef { pl_root = root; pl_path = [] })
+      | L [k; z] -> (str k, VAtom (z_of_string (str z)))
+      | _ -> failwith "field") fs) in
+    (v, List.rev !heap)
   | _ -> failwith "value"
 let cmp_char = function Lt -> 'L' | Eq -> 'E' | Gt -> 'G'
 
@@ -132,12 +146,23 @@ let () =
     while true do
       let line = input_line stdin in
       match String.split_on_char '\t' line with
-      | ["RUN"; id; op; sx; vsx] ->
+      | "RUN" :: id :: op :: sx :: vsx :: extra ->
         (try
            let d = dinput (parse_sexp sx) in
-           let vs = (match parse_sexp vsx with L l -> List.map value_of l | _ -> failwith "values") in
+           let is_ref_op = (op = "deref" || op = "deref_mut" || op = "deref_mut_write") in
+           let vhs = (match parse_sexp vsx with L l when is_ref_op -> List.map value_heap_of l | _ -> []) in
+           let vs = (match parse_sexp vsx with L l -> if is_ref_op then [] else List.map value_of l | _ -> failwith "values") in
            let b = Buffer.create 256 in
+           let each f l = List.iter (fun a -> Buffer.add_string b (match f a with Some t -> t | None -> "?"); Buffer.add_char b '\001') l in
            (match op with
+            | "default" -> each (fun () -> model_default d) [()]
+            | "deref" -> each (fun (v, h) -> model_deref d v h) vhs
+            | "deref_mut" -> each (fun (v, h) -> model_deref_mut d v h) vhs
+            | "deref_mut_write" -> each (fun (v, h) -> model_deref_mut_write d v h) vhs
+            | _ when String.length op >= 4 && String.sub op 0 4 = "into" ->
+              (* the target type's tokens come as a sixth field *)
+              let target = (match extra with [tsx] -> toks (parse_sexp tsx) | _ -> failwith "into: target") in
+              each (fun v -> model_into d target v) vs
             | "eq" -> List.iter (fun a -> List.iter (fun x ->
                 Buffer.add_char b (match model_eq d a x with Some true -> '1' | Some false -> '0' | None -> '?')) vs) vs
             | "cmp" -> List.iter (fun a -> List.iter (fun x ->
